@@ -19,6 +19,10 @@ void splinetable<Alloc>::convolve(const uint32_t dim, const double* conv_knots, 
 	if (!conv_knots || n_conv_knots == 0)
 		throw std::invalid_argument("The convolution kernel needs at least one knot");
 	
+	//The kernel may be part of this table's own knots, which are released
+	//further down: take what is needed of it afterwards now.
+	const double kernel_start = conv_knots[0];
+	
 	/* Construct the new knot field. */
 	size_t n_rho = 0;
 	const uint32_t convorder = order[dim] + n_conv_knots - 1;
@@ -171,7 +175,7 @@ void splinetable<Alloc>::convolve(const uint32_t dim, const double* conv_knots, 
 	 * the extent of the spline by half the support of the spline kernel so
 	 * that the surface will remain monotonic over its full extent.
 	 */
-	this->extents[dim][1] += conv_knots[0];
+	this->extents[dim][1] += kernel_start;
 	
 	cleanup.table=nullptr; //success
 }
